@@ -185,6 +185,59 @@ def generator_oracle(rng, rounds):
         got = {frozenset(x) for x in members(S) if len(x) >= 2}
         if got != cl or not is_closed(S):
             bad("flag_complex", (sorted(Gx.edges), mo), "simplices are not exactly the cliques up to the maximum order")
+        # probabilistic promotion of cliques: probability 0 promotes none, 1 (or no probability) all
+        tri = {frozenset(c) for c in nx.enumerate_all_cliques(Gx) if len(c) == 3}
+        gedges = {frozenset(e) for e in Gx.edges}
+        for p2 in (None, 0, 1, 0.0, 1.0, 0.5):
+            try:
+                with warnings.catch_warnings():
+                    warnings.simplefilter("ignore")
+                    S3 = xgi.flag_complex_d2(Gx, p2=p2, seed=seed)
+                got3 = {frozenset(x) for x in members(S3)}
+                g_tri = {x for x in got3 if len(x) == 3}
+                if set(S3.nodes) != set(Gx.nodes) or {x for x in got3 if len(x) == 2} != gedges or not g_tri <= tri \
+                   or any(len(x) > 3 for x in got3) or not is_closed(S3):
+                    bad("flag_complex_d2", (sorted(Gx.edges), p2, seed), "nodes / links are not the graph's, or a filled triangle is not a triangle of the graph")
+                elif p2 in (0, 0.0) and g_tri:
+                    bad("flag_complex_d2", (sorted(Gx.edges), p2, seed), f"probability 0 filled {len(g_tri)} triangles")
+                elif (p2 is None or p2 in (1, 1.0)) and g_tri != tri:
+                    bad("flag_complex_d2", (sorted(Gx.edges), p2, seed), f"probability 1 / None filled {len(g_tri)} of {len(tri)} triangles")
+            except Exception as e:  # noqa: BLE001
+                bad("flag_complex_d2", (sorted(Gx.edges), p2, seed), f"raised {type(e).__name__}: {e}")
+        for ps_ in ([0, 0], [1, 1], [0.0], [1.0, 0.0], [0.5, 0.5]):
+            try:
+                with warnings.catch_warnings():
+                    warnings.simplefilter("ignore")
+                    S4 = xgi.flag_complex(Gx, max_order=3, ps=ps_, seed=seed)
+                got4 = {frozenset(x) for x in members(S4)}
+                allcl = {frozenset(c) for c in nx.enumerate_all_cliques(Gx) if 2 <= len(c) <= 4}
+                big = {x for x in got4 if len(x) >= 3}
+                if set(S4.nodes) != set(Gx.nodes) or {x for x in got4 if len(x) == 2} != gedges or not big <= allcl or not is_closed(S4):
+                    bad("flag_complex", (sorted(Gx.edges), 3, ps_, seed), "nodes / links are not the graph's, or a simplex is not a clique")
+                elif all(q == 0 for q in ps_) and len(ps_) >= 2 and big:
+                    bad("flag_complex", (sorted(Gx.edges), 3, ps_, seed), f"probabilities 0 promoted {len(big)} cliques")
+                elif ps_ == [1, 1] and got4 != allcl:
+                    bad("flag_complex", (sorted(Gx.edges), 3, ps_, seed), "probabilities 1 did not promote every clique")
+                elif ps_ == [1.0, 0.0] and {x for x in got4 if len(x) == 3} != {x for x in allcl if len(x) == 3}:
+                    bad("flag_complex", (sorted(Gx.edges), 3, ps_, seed), "probability 1 for triangles did not promote every triangle")
+                elif ps_ == [1.0, 0.0] and any(len(x) == 4 for x in got4):
+                    bad("flag_complex", (sorted(Gx.edges), 3, ps_, seed), "probability 0 for 4-cliques promoted one")
+            except Exception as e:  # noqa: BLE001
+                bad("flag_complex", (sorted(Gx.edges), 3, ps_, seed), f"raised {type(e).__name__}: {e}")
+        for pe in (0, 1, 0.5):
+            try:
+                with warnings.catch_warnings():
+                    warnings.simplefilter("ignore")
+                    S5 = xgi.random_flag_complex(n, pe, max_order=mo, seed=seed)
+                got5 = {frozenset(x) for x in members(S5)}
+                if sorted(S5.nodes) != list(range(n)) or not is_closed(S5) or any(len(x) > mo + 1 for x in got5):
+                    bad("random_flag_complex", (n, pe, mo, seed), "wrong node set, not downward closed or above the maximum order")
+                elif pe == 0 and got5:
+                    bad("random_flag_complex", (n, pe, mo, seed), "probability 0 produced simplices")
+                elif pe == 1 and got5 != {frozenset(c) for r in range(2, mo + 2) for c in itertools.combinations(range(n), r)}:
+                    bad("random_flag_complex", (n, pe, mo, seed), "probability 1 did not produce the complete complex")
+            except Exception as e:  # noqa: BLE001
+                bad("random_flag_complex", (n, pe, mo, seed), f"raised {type(e).__name__}: {e}")
         with warnings.catch_warnings():
             warnings.simplefilter("ignore")
             S2 = xgi.random_flag_complex_d2(n, 0.6, seed=seed)
